@@ -707,6 +707,19 @@ func (env *SpecEnv) callPure(e *SExpr, pf *PureFunc) TV {
 func (env *SpecEnv) callGo(e *SExpr, fn *types.Func, recv *TV, args []TV) TV {
 	vc := env.vc
 	fi := vc.prog.ByObj[fn]
+	if spec, ok := vc.prog.Specs[funcKey(fn)]; ok && spec.Pure && spec.Trusted {
+		// trusted pure function: the same uninterpreted application that call sites use
+		sig := fn.Type().(*types.Signature)
+		var all []*Term
+		if recv != nil {
+			all = append(all, recv.T)
+		}
+		for _, a := range args {
+			all = append(all, a.T)
+		}
+		t := sig.Results().At(0).Type()
+		return TV{App(fmt.Sprintf("fn.%s.r0", smtName(shortKey(funcKey(fn)))), sortOf(t), all...), t}
+	}
 	if fi == nil || fi.Decl == nil || fi.Decl.Body == nil {
 		env.fail(e, "Go function "+fn.FullName()+" has no body available for use in specs")
 	}
